@@ -91,6 +91,24 @@ def stepReqAll (w : World) (s : State) (m : Nat) (wd : Bool) : State :=
       ((md.exportFrom.filter (keepF wd)).map fun p => Task.reqName p.2.1 p.2.2) ++
       md.stars.map (fun x => Task.reqAll x false) }
 
+/-- the declaration, local export specifier or named re-export a module has under a name -/
+def ownsName (md : Mod) (n : Nat) : Bool :=
+  (ownExport md n).isSome || (findLocalExport md n).isSome || (findFrom md n).isSome
+
+/-- the modules reachable through `export *` within `k` steps -/
+def starClosure (w : World) : Nat → List Nat → List Nat
+  | 0, seen => seen
+  | k + 1, seen => starClosure w k (insAll (seen.flatMap fun x => (w.mod x).stars) seen)
+
+/-- a module exports a name (other than `default`) if it or a module it star-re-exports, directly
+or not, has it (`ModuleInfoRef::exports`, as a set: C16) -/
+def resolves (w : World) (x n : Nat) : Bool :=
+  (starClosure w w.length [x]).any fun y => ownsName (w.mod y) n
+
+/-- the first `export *` of a module through which a name is found; `default` never is -/
+def starProvider (w : World) (md : Mod) (n : Nat) : Option Nat :=
+  if n = 0 then none else md.stars.find? fun x => resolves w x n
+
 def stepReqName (w : World) (s : State) (m n : Nat) : State :=
   let md := w.mod m
   let s := { s with modules := ins m s.modules }
@@ -103,9 +121,11 @@ def stepReqName (w : World) (s : State) (m n : Nat) : State :=
       match findFrom md n with
       | some p => { s with exportFrom := ins (m, n) s.exportFrom, work := s.work ++ [.reqName p.2.1 p.2.2] }
       | none =>
-        if n = 0 then s
-        else { s with stars := insAll (md.stars.map fun x => (m, x)) s.stars,
-                      work := s.work ++ md.stars.map fun x => Task.reqName x n }
+        -- not a name of the module itself: the first `export *` that provides it is kept and asked;
+        -- when none does (or for `default`) every `export *` is kept and nothing is asked
+        match starProvider w md n with
+        | some x => { s with stars := ins (m, x) s.stars, work := s.work ++ [.reqName x n] }
+        | none => { s with stars := insAll (md.stars.map fun x => (m, x)) s.stars }
 
 def stepLocal (w : World) (s : State) (m l : Nat) : State :=
   let md := w.mod m
